@@ -26,6 +26,7 @@ var propPkgs = map[string][]string{
 	"C15": {"./internal/index/converters"},
 	"C14": {"./internal/query"},
 	"C03": {"./internal/query"},
+	"C02": {"./internal/index"},
 }
 
 type Finding struct {
@@ -317,7 +318,7 @@ func cmdCheck(args []string) {
 	sort.Strings(unsup)
 	assumptions := append([]string{
 		"go/ssa (x/tools v0.50.0) NaiveForm is a faithful translation of the Go source; the Go compiler and runtime are trusted",
-		"gvc's symbolic semantics of SSA instructions (DESIGN 2.2-2.3): slices are windows into owned backing arrays, distinct slice-typed inputs/fields do not share arrays, append always yields a fresh array with the same contents",
+		"gvc's symbolic semantics of SSA instructions (DESIGN 2.2-2.3): slices are windows into owned backing arrays, distinct slice-typed inputs/fields do not share arrays, append yields a fresh array with the same contents (functions marked `appendinplace` are verified with both outcomes of append: in place into spare capacity, and fresh); fields of objects reached through unknown pointers are uninterpreted heap functions of the reference, re-versioned whenever un-contracted code may have run",
 		"allocations succeed, so every slice length/capacity is at most 2^48 (runtime maxAlloc on amd64)",
 		"integers: mathematical Int with exact wrap-around per Go type, except the kinds listed under bit-vector mode in the contract file",
 		"SMT solvers z3 5.1.0, z3 4.8.12, cvc5 1.0.3 are sound (an unsat answer from one of them discharges an instance)",
